@@ -128,16 +128,22 @@ CLAIMED = {
         technique="Coq proof (invariant by induction over operation histories, sound boolean checker) + snapshot judging on the implementation",
         ref="§7 C03"),
     "C08": dict(
-        text="Coq theorems over the mirror of the Entries iterator (explicit stack machine with fuel): no traversal panics, no yielded item is one the "
-             "dirs/files filter rejects, and the result does not depend on the descriptor cap. The mirror is compared with the real iterator on random "
-             "trees (links, cycles, dangling) x the cross-product of options, and every observed sequence is judged by an independent recursive "
-             "specification (tools/walkspec.py): exact multiset the options denote, each once, parents before contents (after with contents_first), "
-             "name order / kind grouping, LinkLooping, termination; listings are checked absolute, distinct, sorted, excluding the argument and agreeing "
-             "with is_dir/is_file. Partial: exactness, order and termination (fuel sufficiency) are decided by the judge on bounded trees, not yet by "
-             "theorems; 'identically on both backends' runs under C02.",
-        note="Trusted: Coq kernel; tools/walkspec.py as the specification of 'the entries the options denote'; sibling order of unsorted traversals "
-             "and of name ties is HashSet order and compared as a multiset; extraction, driver, harness, differ.",
-        technique="Coq proof (safety lemmas over the stack machine) + correspondence + independent specification as judge",
+        text="Coq theorems over the mirror of the Entries iterator (explicit stack machine with fuel: iterator stack, deferred stack, descriptor "
+             "counter, one next() per item). Memfs/WalkSpec.v states what a traversal denotes as a plain recursion over the snapshot and proves the "
+             "machine returns exactly the recursion's event sequence for every snapshot, option record, pre_op and start, links followed or not, "
+             "whenever the recursion is defined and the fuel covers its steps; Memfs/WalkTerm.v proves both always hold when links are not followed "
+             "(termination within fuel). Memfs/WalkExact.v reads the property off the recursion for every well-formed state without follow: no "
+             "errors and exactly the entries the depth window and filter select, all of them, each once; parents before contents (after with "
+             "contents_first); siblings in name order grouped by kind with dirs_first / files_first; paths/dirs/files/all_* return exactly the "
+             "entries strictly below an existing directory (one level for the shallow ones) of the asked kind, each once, never the argument. Also: "
+             "no panic, nothing a filter rejects is yielded, independence of the descriptor cap. The mirror is compared with the real iterator on "
+             "random trees (links, cycles, dangling) x the cross-product of options; the driver compares machine and recursion on every explored "
+             "call; every observed sequence is also judged by tools/walkspec.py. Partial: with links followed, termination (hence the denotation: "
+             "target contents once per followed link, LinkLooping on a cycle) is exercised and judged, not proved; 'identically on both backends' "
+             "runs under C02.",
+        note="Trusted: Coq kernel; sibling order of unsorted traversals and of name ties is HashSet order and compared as a multiset; "
+             "tools/walkspec.py as a second, independent judge; extraction, driver, harness, differ.",
+        technique="Coq proof (machine = recursive denotation; exactness, order and termination without follow) + correspondence + independent judge",
         ref="§7 C08"),
     "C06": dict(
         text="Coq theorems over the Memfs mirror for every state, path and data: a successful write_all makes read_all return exactly the data "
